@@ -3,6 +3,7 @@ package main
 import (
 	"encoding/json"
 	"fmt"
+	"github.com/buildkite/go-pipeline/warning"
 	"reflect"
 	"strings"
 
@@ -428,8 +429,10 @@ func init() {
 	props["C12"] = func(rng *sx.Rng, thorough bool) {
 		if thorough {
 			c12stepCases(rng, 20000)
+			c12aliases(rng, 2000)
 		} else {
 			c12stepCases(rng, 1500)
+			c12aliases(rng, 150)
 		}
 		syms := []string{"{", "}", " ", "\t", "matrix", ".", "a", "-"}
 		maxLen := 6
@@ -496,5 +499,48 @@ func init() {
 				c12empty(sb.String())
 			}
 		}
+	}
+}
+
+// c12aliases: a subtree written once and referenced from several fields of a step is, after parsing, several
+// independent subtrees; each is interpolated once, from the original text - also when a permutation value itself
+// looks like a token. The document with aliases must give what the document with the subtree written out gives.
+func c12aliases(rng *sx.Rng, n int) {
+	strs := []string{"q-{{matrix.a}}", "{{matrix.b}} and {{ matrix.a }}", "plain", "{{matrix.a}}{{matrix.a}}", "x {{matrix.b}}"}
+	for i := 0; i < n; i++ {
+		q := func() string { return fmt.Sprintf("%q", sx.Pick(rng, strs)) }
+		shared := sx.Pick(rng, []string{
+			fmt.Sprintf("{queue: %s, tags: [%s, %s]}", q(), q(), q()),
+			fmt.Sprintf("[%s, {n: %s}]", q(), q()),
+			fmt.Sprintf("{k: {deep: %s}}", q()),
+		})
+		va := sx.Pick(rng, []string{"{{matrix.b}}", "plain-a", "{{ matrix.b }}", "{{matrix.a}}"})
+		vb := sx.Pick(rng, []string{"x", "{{matrix.a}}", "y"})
+		tmpl := "x-shared: &sh %s\nsteps:\n- command: echo {{matrix.a}}\n  matrix:\n    setup:\n      a: [%q]\n      b: [%q]\n  agents: %s\n  fallback_agents: %s\n  plugins:\n  - docker#v1: %s\n  - other#v2: %s\n"
+		withAlias := fmt.Sprintf(tmpl, shared, va, vb, "*sh", "*sh", "*sh", "*sh")
+		inlined := fmt.Sprintf(tmpl, shared, va, vb, shared, shared, shared, shared)
+		run := func(text string) (string, error) {
+			noteCase("C12", text)
+			p, err := pipeline.Parse(strings.NewReader(text))
+			if err != nil && !warning.Is(err) {
+				return "", err
+			}
+			cs, ok := p.Steps[0].(*pipeline.CommandStep)
+			if !ok {
+				return "", fmt.Errorf("not a command step: %T", p.Steps[0])
+			}
+			if err := cs.InterpolateMatrixPermutation(pipeline.MatrixPermutation{"a": va, "b": vb}); err != nil {
+				return "", err
+			}
+			b, err := json.Marshal(cs)
+			return string(b), err
+		}
+		a, ea := run(withAlias)
+		b, eb := run(inlined)
+		if (ea == nil) != (eb == nil) || a != b {
+			oracleFail("C12", "alias-shared", sx.L(sx.A("yaml-block"), sx.A(withAlias)), fmt.Sprintf("with aliases: %s (%v)\nwritten out : %s (%v)", a, ea, b, eb))
+			continue
+		}
+		stat("C12", "alias-docs")
 	}
 }
